@@ -1,4 +1,6 @@
 import VermouthModel.C06
+import VermouthModel.C06_Ismags
+import Std.Data.HashMap
 open Proto Iso C06
 
 def nodeOf (t : Tok) : Option (Int × Int) := do
@@ -15,6 +17,72 @@ def graphOf (ns es : Tok) : Option Graph := do
   pure { nodes := ← (← ns.list?).mapM nodeOf, edges := ← (← es.list?).mapM edgeOf }
 
 def pairOf (t : Tok) : Option (Int × Int) := nodeOf t
+
+def pairsOf (t : Tok) : Option (List (Int × Int)) := do (← t.list?).mapM pairOf
+
+def cosetOf (t : Tok) : Option (Int × List Int) := do
+  match ← t.list? with
+  | [k, vs] => pure (← k.int?, ← ints? vs)
+  | _ => none
+
+/-! answers of the TRANSCRIPTION (`VermouthModel/C06_Ismags.lean`) -/
+
+def encSet (s : List Int) : String := encList ((C06I.sortInts s).map encInt)
+
+/-- `_find_nodecolor_candidates()` and `_get_lookahead_candidates()`: per pattern node the single
+node-colour set and the look-ahead set -/
+def answerTCand (edgeNone : Bool) (g sg : Graph) : String :=
+  let nc := C06I.findNodecolorCandidates g sg
+  let la := C06I.getLookaheadCandidates edgeNone g sg
+  encList (sg.keys.map fun u =>
+    encList [encList ((C06I.Cands.get nc u).map encSet), encList ((C06I.Cands.get la u).map encSet)])
+
+/-- a yielded mapping listed along the pattern nodes (total maps: the targets only) -/
+def alongPattern (sg : Graph) (m : Map) : Map := sg.keys.filterMap fun u => (m.lookup u).map fun t => (u, t)
+
+def answerTIso (edgeNone : Bool) (g sg : Graph) (C : List (Int × Int)) : String :=
+  encList ((sortMaps ((C06I.findIsomorphisms edgeNone g sg C).map (alongPattern sg))).map encTotal)
+
+def answerTLcs (g sg : Graph) (C : List (Int × Int)) : String :=
+  encList ((sortMaps ((C06I.largestCommonSubgraph g sg C).map (alongPattern sg))).map encPartial)
+
+/-! the transcription run with the choices RECORDED from the real run (yield SEQUENCES are compared) -/
+
+/-- key of a search node: number of mapped nodes, the mapping sorted by pattern node, the nodes left to map sorted -/
+def nodeKey (mapping : Map) (left : List Int) : List Int :=
+  let ms := C06I.sortBy (fun (a b : Int × Int) => a.1 ≤ b.1) mapping
+  (Int.ofNat mapping.length :: ms.flatMap fun p => [p.1, p.2]) ++ C06I.sortInts left
+
+/-- a record `[mapping, left, sgn]`, or `[mapping, sgn]` when the nodes left are the complement of the mapping
+(find_isomorphisms: `to_be_mapped` is always the whole pattern) -/
+def recordOf (t : Tok) : Option (List Int × Int) := do
+  match ← t.list? with
+  | [m, l, s] => pure (nodeKey (← pairsOf m) (← ints? l), ← s.int?)
+  | [m, s] => pure (nodeKey (← pairsOf m) [], ← s.int?)
+  | _ => none
+
+/-- not a node key of any generated graph: a refused choice makes `_map_nodes` yield nothing below it -/
+def refused : Int := -1000003
+
+/-- the node the real code started `_map_nodes` with at this search node - accepted only if it is a
+possible result of the code's `min(..)` on the model's candidate table (`legalChoice`) -/
+def pickRecorded (withLeft : Bool) (table : Std.HashMap (List Int) Int) (mapping : Map) (c : C06I.Cands)
+    (left : List Int) : Int :=
+  match table.get? (nodeKey mapping (if withLeft then left else [])) with
+  | some s => if C06I.legalChoice c left s then s else refused
+  | none => refused
+
+def answerQIso (edgeNone : Bool) (g sg : Graph) (C : List (Int × Int)) (recs : List (List Int × Int)) : String :=
+  let table := Std.HashMap.ofList recs
+  encList (((C06I.findIsomorphismsWith (pickRecorded false table) edgeNone g sg C).map (alongPattern sg)).map encTotal)
+
+def answerQLcs (g sg : Graph) (C : List (Int × Int)) (recs : List (List Int × Int)) : String :=
+  let table := Std.HashMap.ofList recs
+  encList (((C06I.largestCommonSubgraphWith (pickRecorded true table) g sg C).map (alongPattern sg)).map encPartial)
+
+def answerTCons (cosets : List (Int × List Int)) : String :=
+  encList (((C06I.makeConstraints cosets).mergeSort fun a b => a.1 < b.1 || (a.1 == b.1 && a.2 ≤ b.2)).map
+    fun p => encList [encInt p.1, encInt p.2])
 
 def handle (_ : Unit) (toks : List Tok) : Unit × String :=
   let r : Option String :=
@@ -34,6 +102,26 @@ def handle (_ : Unit) (toks : List Tok) : Unit × String :=
     | [Tok.str "lcssym", gn, ge, sn, se, out] => do
         let o ← (← out.list?).mapM (fun m => do (← m.list?).mapM pairOf)
         pure (answerLcsSym (← graphOf gn ge) (← graphOf sn se) o)
+    | [Tok.str "tcand", Tok.int en, gn, ge, sn, se] => do
+        pure (answerTCand (en != 0) (← graphOf gn ge) (← graphOf sn se))
+    | [Tok.str "tiso", Tok.int en, gn, ge, sn, se, c] => do
+        pure (answerTIso (en != 0) (← graphOf gn ge) (← graphOf sn se) (← pairsOf c))
+    | [Tok.str "tlcs", gn, ge, sn, se, c] => do
+        pure (answerTLcs (← graphOf gn ge) (← graphOf sn se) (← pairsOf c))
+    | [Tok.str "qiso", Tok.int en, gn, ge, sn, se, c, recs] => do
+        pure (answerQIso (en != 0) (← graphOf gn ge) (← graphOf sn se) (← pairsOf c) (← (← recs.list?).mapM recordOf))
+    | [Tok.str "qlcs", gn, ge, sn, se, c, recs] => do
+        pure (answerQLcs (← graphOf gn ge) (← graphOf sn se) (← pairsOf c) (← (← recs.list?).mapM recordOf))
+    | [Tok.str "tbool", Tok.int which, Tok.int en, gn, ge, sn, se, c] => do
+        let g ← graphOf gn ge
+        let sg ← graphOf sn se
+        let C ← pairsOf c
+        pure (encBool (if which == 0 then C06I.subgraphIsIsomorphicWith (fun _ => C06I.pickMin) (en != 0) g sg C
+                       else C06I.isIsomorphicWith (fun _ => C06I.pickMin) (en != 0) g sg C))
+    | [Tok.str "tvalid", sn, se, c] => do
+        pure (encBool (C06I.constraintsValidB (← graphOf sn se) (← pairsOf c)))
+    | [Tok.str "tcons", cs] => do
+        pure (answerTCons (← (← cs.list?).mapM cosetOf))
     | _ => none
   ((), r.getD "bad-op")
 
